@@ -342,10 +342,10 @@ func nodeAt(d *declInfo, fi fieldInit) ast.Node {
 }
 
 // exprText prints an expression in full (types.ExprString elides composite literals).
-func exprText(fset *token.FileSet, e ast.Expr) string {
+func exprText(fset *token.FileSet, e ast.Node) string {
 	var b bytes.Buffer
 	if err := printer.Fprint(&b, fset, e); err != nil {
-		return types.ExprString(e)
+		return "?"
 	}
 	return strings.Join(strings.Fields(b.String()), " ")
 }
